@@ -41,12 +41,15 @@ type ColdSpec struct {
 
 type coldEventer struct {
 	joins *sync.Map // key -> *atomic.Int64 (successful announcements)
-	bad   *atomic.Int64
+	bad   *sync.Map // phone of the refused hello -> *atomic.Int64
 }
 
-func (e *coldEventer) OnJoinEvent(_ *service.Message, key string, err error) {
+func (e *coldEventer) OnJoinEvent(msg *service.Message, key string, err error) {
 	if err != nil {
-		e.bad.Add(1)
+		if msg != nil && msg.JTMessage != nil && msg.JTMessage.Header != nil {
+			v, _ := e.bad.LoadOrStore(msg.JTMessage.Header.TerminalPhoneNo, new(atomic.Int64))
+			v.(*atomic.Int64).Add(1)
+		}
 		return
 	}
 	v, _ := e.joins.LoadOrStore(key, new(atomic.Int64))
@@ -57,8 +60,10 @@ func (e *coldEventer) OnNotSupportedEvent(*service.Message)  {}
 func (e *coldEventer) OnReadExecutionEvent(*service.Message) {}
 func (e *coldEventer) OnWriteExecutionEvent(service.Message) {}
 
+// phones carry the child's pid: several children run at once, and a port picked by "listen on :0, close" can be taken
+// by another child before this one listens on it (seen once in the thorough tier: foreign terminals were counted)
 func coldIdentity(round, i int, v2019 bool) identity {
-	return identity{Digits: fmt.Sprintf("137%04d%04d", round%10000, i), V2019: v2019}
+	return identity{Digits: fmt.Sprintf("1%05d%02d%03d", os.Getpid()%100000, round%100, i), V2019: v2019}
 }
 
 // readFrames reads until n valid 0x8001 replies arrived, EOF, or the deadline; returns replies, commands, eof.
@@ -122,11 +127,12 @@ func childCold(spec ColdSpec, out io.Writer) {
 		}
 		addr := l.Addr().String()
 		l.Close()
-		joins, bad := &sync.Map{}, &atomic.Int64{}
+		joins, bad := &sync.Map{}, &sync.Map{}
 		srv := service.New(service.WithHostPorts(addr), service.WithCustomTerminalEventer(func() service.TerminalEventer {
 			return &coldEventer{joins: joins, bad: bad}
 		}))
-		go srv.Run()
+		var listenFailed atomic.Bool
+		go func() { srv.Run(); listenFailed.Store(true) }() // Run returns only when it cannot listen
 		// no probe connection: the connections of the first terminals are the first the server sees
 		hellos := max(spec.Hellos, 0)
 		conns := make([]net.Conn, 0, hellos+1)
@@ -195,6 +201,10 @@ func childCold(spec ColdSpec, out io.Writer) {
 				finish()
 			}
 		}
+		if listenFailed.Load() {
+			add(Event{Kind: "dial_err", Err: "another process took the port between picking it and listening on it"})
+			finish()
+		}
 		// from here on the registry has K online keys; everything below is sequential
 		for d := 0; d < spec.Duplicates; d++ {
 			own := d % online
@@ -229,13 +239,21 @@ func childCold(spec ColdSpec, out io.Writer) {
 				finish()
 			}
 		}
-		okJoins := 0
-		joins.Range(func(k, v any) bool {
-			okJoins += int(v.(*atomic.Int64).Load())
-			return true
-		})
-		if okJoins != online || int(bad.Load()) != spec.Duplicates {
-			add(Event{Kind: "cold_violation", Note: fmt.Sprintf("round %d: join callback announced %d successes and %d refusals, want %d and %d", round, okJoins, bad.Load(), online, spec.Duplicates)})
+		okJoins, badJoins := 0, 0
+		for i := 0; i < online; i++ { // only this round's own keys (a stray connection of another process is not ours to judge)
+			if v, ok := joins.Load(coldIdentity(round, i, spec.V2019).key()); ok {
+				okJoins += int(v.(*atomic.Int64).Load())
+			}
+			if v, ok := bad.Load(coldIdentity(round, i, spec.V2019).key()); ok {
+				badJoins += int(v.(*atomic.Int64).Load())
+			}
+		}
+		if listenFailed.Load() {
+			add(Event{Kind: "dial_err", Err: "another process took the port between picking it and listening on it"})
+			finish()
+		}
+		if okJoins != online || badJoins != spec.Duplicates {
+			add(Event{Kind: "cold_violation", Note: fmt.Sprintf("round %d: join callback announced %d successes and %d refusals, want %d and %d", round, okJoins, badJoins, online, spec.Duplicates)})
 			finish()
 		}
 		for _, c := range conns {
